@@ -11,7 +11,8 @@ class ScopeProgram:
         r = rng
         self.c = [r.randrange(1, 20) for _ in range(6)]
         # units: name -> (number of locals/params, may use field names?)
-        self.units = {"A": (2, True), "B": (2, False), "C": (1, False), "D": (2, True), "E": (3, True), "M": (3, True), "F": (2, True)}
+        self.units = {"A": (2, True), "B": (2, False), "C": (1, False), "D": (2, True), "E": (3, True), "M": (3, True), "F": (2, True),
+                      "H": (2, True), "J": (2, False)}
         # array-typed locals: in the colliding rendering they carry the name of P's array field
         self.arr_colliding = {"M": "d", "E": "d"}
         self.arr_fresh = {"M": "m_arr_z", "E": "e_arr_z"}
@@ -26,6 +27,7 @@ class ScopeProgram:
         self.fresh = {u: ["%s_%d_z" % (u.lower(), i) for i in range(k)] for u, (k, _f) in self.units.items()}
         body = ["echo(early({M0}));", "echo(early({M1}) + {M0});", "{ SG<P> gq = new SG<P>(); echo(gq.get()); }", "echo(SN.get());", "{M2}.setn({M0} + 1);", "echo({M0}); echo({M1});", "echo({M2}.addt({M1}));", "echo(helper({M2}, {M0}));",
                 "echo({M0} + {M1});", "echo({M2}.viaThis({M1}));", "{M0} = {M0} + 1;", "echo({M2}.n); echo({M2}.t);",
+                "{ PD pd = new PD({M0}, {M1}); echo(pd.n); echo(pd.t); echo(pd.z); }", "{ PB pb = new PD({M1}, 3); echo(pb.n + pb.t); }",
                 "{ P q = new P({M1}, {M0}); echo(q.addt(1)); }", "{ P dq = new P({M1}, {M0}); destroy dq; echo({M0}); }",
                 "{M2} = new P({M0}, {M1}); echo({M2}.n);", "echo({M2}.at({M0})); echo({MA}[1]);", "echo({M2}.at(1) + {MA}[0]);", "{ P rq = new P({M0}, 2); rq = new P(3, {M1}); echo(rq.t); }"]
         r.shuffle(body)
@@ -49,6 +51,8 @@ class ScopeProgram:
             "    public function at(int {C0}) -> int { return d[{C0} % 3] + d[0]; }",
             "    public destructor() -> void { echo(n * 1000 + t); }",
             "}",
+            "class PB { public int n = %d; public int t = %d; public constructor(int {J0}) -> PB { int {J1} = {J0} + 1; n = n + {J1}; t = t + n; return this; } }" % (c[3], c[4]),
+            "class PD extends PB { public int z = 1; public constructor(int {H0}, int {H1}) -> PD { super({H0} + {H1}); z = z + {H0}; return this; } }",
             "class SG<T> { public static int k = %d; public static int w = k * 2 + 1; public static int v = w + k; public constructor() -> SG<T> = default; public function get() -> int { return w * 100 + v; } }" % c[4],
             "class SN { public static int x = %d; public static int k = x + 5; public constructor() -> SN = default; public static function get() -> int { return k * 3 + x; } }" % c[5],
             "function early(int {F0}) -> int { for (int {F1} = 0; {F1} < 4; {F1} = {F1} + 1) { if ({F1} == 2) { return {F0} + {F1}; } } return 0; }",
